@@ -118,3 +118,4 @@ META = dict(
     design_ref="DESIGN.md §4 C05",
     technique="CBMC bounded symbolic execution of real reader code over fully symbolic images (SAT), memory-safety + unwinding assertions",
 )
+META["text"] += " Every inode type incl. the extended directory index (growth boundary, termination of the doubling loop) and 'a failed stream stays failed' are decided."
